@@ -18,7 +18,8 @@ NONZERO = {"NonZeroU8": "u8", "NonZeroI32": "i32", "NonZeroU64": "u64", "NonZero
 LEAF_PRIMS = ["u8", "i8", "u16", "i32", "u32", "u64", "i64", "usize", "isize", "f32", "f64", "bool", "char", "String", "()",
               "NonZeroU8", "NonZeroI32", "NonZeroU64", "PathBuf", "Ipv4Addr", "IpAddr", "SocketAddr"]
 FIELD_NAMES = ["a", "b", "foo_bar", "fooBar", "x1", "r#type", "value", "kind", "_p", "inner", "opt", "list", "m", "id", "HTTPCode", "v2_x"]
-ODD_RENAMES = ["a-b", "1x", "$x", "with space", "é", "Ünï", "x.y", "class", "_", "a_b_c", "007", "42", "12345678901234567890"]
+ODD_RENAMES = ["a-b", "1x", "$x", "with space", "é", "Ünï", "x.y", "class", "_", "a_b_c", "007", "42", "12345678901234567890",
+               "٣d", "３x", "၂a"]      # decimal digits of other scripts in front (not identifier starts either)
 VARIANT_NAMES = ["A", "B", "Cee", "FooBar", "Foo_Bar", "X1", "r#Type", "HTTPServer", "Dd", "Unit", "Tup", "Str"]
 
 
